@@ -193,7 +193,8 @@ fn suite<T: Fl, C, M: ModeSet<T, C>, const N: usize>(mb: &mut Monitor, mc: &mut 
 where
     C: ArrayCast<Array = [T; N]> + Premultiply<Scalar = T> + Clone + Compose + 'static,
     Alpha<C, T>: Compose + BlendWith<Color = C> + Clone,
-    PreAlpha<C>: Compose + BlendWith<Color = C> + Clone,
+    PreAlpha<C>: Compose + BlendWith<Color = C> + Clone + From<C> + From<Alpha<C, T>>,
+    C: From<PreAlpha<C>>,
     Equations: palette::blend::BlendFunction<C>,
 {
     let inst = format!("{}/{}", name, T::NAME);
@@ -214,8 +215,8 @@ where
         let inp = || json!({"cs": cs, "as": as_, "cb": cb, "ab": ab});
         let sa = Alpha { color: s.clone(), alpha: T::f(as_) };
         let ba = Alpha { color: b.clone(), alpha: T::f(ab) };
-        let sp: PreAlpha<C> = PreAlpha::from(sa.clone());
-        let bp: PreAlpha<C> = PreAlpha::from(ba.clone());
+        let sp: PreAlpha<C> = <PreAlpha<C> as From<Alpha<C, T>>>::from(sa.clone());
+        let bp: PreAlpha<C> = <PreAlpha<C> as From<Alpha<C, T>>>::from(ba.clone());
         let csp: Vec<f64> = arrc(&sp.color);
         let cbp: Vec<f64> = arrc(&bp.color);
         // ---------------- premultiply / unpremultiply
@@ -239,6 +240,15 @@ where
             let (uc, ua) = C::unpremultiply(s.clone().premultiply(T::f(as_)));
             if arrc(&uc) != bv || ua.d() != as_ {
                 mp.violate(&inst, "premultiply_trait_vs_from", inp(), json!({"color": arrc(&uc)}), json!({"color": bv}), "");
+            }
+            // the remaining conversion forms: PreAlpha -> bare colour (the type's own From impl) unpremultiplies and drops the
+            // alpha, bare colour -> PreAlpha is the opaque colour, the inherent unpremultiply equals the From impl
+            let bare: C = C::from(sp.clone());
+            let opaque: PreAlpha<C> = <PreAlpha<C> as From<C>>::from(s.clone());
+            let inh: Alpha<C, T> = sp.clone().unpremultiply();
+            mp.evals(3);
+            if arrc(&bare) != bv || arrc(&opaque.color) != cs || opaque.alpha.d() != 1.0 || arrc(&inh.color) != bv || inh.alpha.d() != back.alpha.d() {
+                mp.violate(&inst, "premultiplied_conversion_forms_disagree", inp(), json!({"C::from(pre)": arrc(&bare), "PreAlpha::from(c)": arrc(&opaque.color), "opaque_alpha": opaque.alpha.d(), "pre.unpremultiply()": arrc(&inh.color)}), json!({"unpremultiplied": bv, "color": cs}), "");
             }
             if q < 32 {
                 mp.cell(pvmon::rng::mix(pvmon::rng::hash_str(&inst), q));
